@@ -12,7 +12,7 @@
        dispatcher layered on top (EvalAll.builtin_all) is one more `match` case proved with
        pure_bi_rel or the loop lemmas, falling through to builtin_full_rel.
 
-   EXCLUDED operators: == != .== .!= (finding F52: Value::equals on two functions compares
+   EXCLUDED operators: == != .== .!= (finding F53: Value::equals on two functions compares
    parameter lists and body ASTs only, so it distinguishes a closure from its reloaded emission
    and identifies closures that differ only in captured values).  *)
 From Coq Require Import String Ascii List ZArith Bool Lia.
